@@ -681,11 +681,18 @@ def k_day_view(eng, instant=False):
             if callee == "LunarMonth::get_sixty_cycle":
                 return True, Obj("SixtyCycle", FM)
             if callee == "LunarDay::get_sixty_cycle":
-                return True, Obj("SixtyCycle", dp)
-            if callee in ("SolarDay::get_lunar_day", "LunarHour::get_lunar_day"):
-                return True, Rec(c, "lunar_day")
+                # dp is the pillar of the lunar day OF THIS DATE (02.c + 07.c); any other lunar day has a pillar nothing is known about
+                if a and isinstance(a[0], Rec) and a[0].name == "lunar_day_of_this_date":
+                    return True, Obj("SixtyCycle", dp)
+                other = c.fresh_value("pillar_of_some_other_lunar_day", "usize")
+                path.pc.append(T("(<= 0 %s 59)" % other.s, "Bool"))
+                return True, Obj("SixtyCycle", other)
+            if callee == "SolarDay::get_lunar_day":
+                return True, Rec(c, "lunar_day_of_this_date" if (a and (a[0] is rec or (isinstance(a[0], Rec) and a[0].name == "the_solar_day"))) else "lunar_day")
+            if callee == "LunarHour::get_lunar_day":
+                return True, Rec(c, "lunar_day_of_this_date" if (a and isinstance(a[0], Rec) and a[0].name == "lunar_hour_of_this_instant") else "lunar_day")
             if callee == "SolarTime::get_lunar_hour":
-                return True, Rec(c, "lunar_hour")
+                return True, Rec(c, "lunar_hour_of_this_instant" if (a and a[0] is rec) else "lunar_hour")
             if callee == "LunarHour::get_sixty_cycle":
                 return True, Obj("SixtyCycle", hp)
             if callee == "SolarTime::get_hour" and a and a[0] is rec:
@@ -943,4 +950,46 @@ def k_view_next(eng, which):
         return True, "stepping the view is not stepping its %s: %s" % (base_ty, nat)
 
     r = run_kernel(eng, "11.j/B/%s-view-next" % which, "11.j", "every view, |n| <= 10^12", build, None, replay)
+    return _finish(r, holder["ctx"]) if "ctx" in holder else r
+
+
+# ------------------------------------------------------------------------------------------------ routes to the day pillar (07.d)
+def k_pillar_route(eng, which):
+    """which = getter: SixtyCycleDay::get_sixty_cycle returns the stored day pillar (the one from_solar_day stored: 08.d 'day' clause);
+    which = civil: SolarDay::get_sixty_cycle_day is the view built from this very day"""
+    holder = {}
+
+    def build(eng):
+        ctx = _ctx(eng, {})
+        holder.update(ctx=ctx)
+        model = ctx.model
+        base = model.call
+        if which == "getter":
+            fields = struct_fields(os.path.join(REPO, "src/tyme/sixtycycle.rs"), "SixtyCycleDay")
+            fn = M.find_fn(eng.fns, "get_sixty_cycle", "&SixtyCycleDay")
+            rec = Rec(ctx, "self", "SixtyCycleDay")
+            dp = ctx.fresh_value("stored_day_pillar", "usize")
+            rec.fields[fields.index("day")] = Obj("SixtyCycle", dp)
+            paths = ctx.run(fn, [("refrec", rec)])
+            return ctx, paths, ["(<= 0 %s 59)" % dp.s], (lambda p: [("returns-the-stored-pillar", "(= %s %s)" % (p.ret.idx.s, dp.s))]), \
+                (lambda p: None if isinstance(p.ret, Obj) and p.ret.kind == "SixtyCycle" else "result is not a pillar")
+        fn = M.find_fn(eng.fns, "get_sixty_cycle_day", "&SolarDay")
+        rec = Rec(ctx, "self", "SolarDay")
+        built = {}
+
+        def call(c, fr, callee, args, path):
+            a = [model.deref(c, x) for x in args]
+            if callee == "SixtyCycleDay::from_solar_day":
+                r = Rec(c, "view", "SixtyCycleDay")
+                built[id(r)] = a[0]
+                return True, r
+            return base(c, fr, callee, args, path)
+        model.call = call
+        paths = ctx.run(fn, [("refrec", rec)])
+
+        def shape(p):
+            return None if id(p.ret) in built and built[id(p.ret)] is rec else "result is not the view built from this very day"
+        return ctx, paths, [], (lambda p: []), shape
+
+    r = run_kernel(eng, "07.d/B/route-%s" % which, "07.d", "every view / every day", build, None, None)
     return _finish(r, holder["ctx"]) if "ctx" in holder else r
